@@ -150,18 +150,21 @@ def external_merge_render(cmd, b, l, r):
     r = as_text(r)
     td = tempfile.mkdtemp()
     try:
-        with io.open(os.path.join(td, 'local'), 'w', encoding="utf8") as f:
+        with io.open(os.path.join(td, 'local'), 'w', encoding="utf8",
+                     errors="surrogatepass") as f:
             f.write(l)
-        with io.open(os.path.join(td, 'base'), 'w', encoding="utf8") as f:
+        with io.open(os.path.join(td, 'base'), 'w', encoding="utf8",
+                     errors="surrogatepass") as f:
             f.write(b)
-        with io.open(os.path.join(td, 'remote'), 'w', encoding="utf8") as f:
+        with io.open(os.path.join(td, 'remote'), 'w', encoding="utf8",
+                     errors="surrogatepass") as f:
             f.write(r)
         assert all(fn in cmd for fn in ['local', 'base', 'remote']), (
             'invalid cmd argument for external merge renderer')
         p = Popen(cmd, cwd=td, stdout=PIPE)
         output, errors = p.communicate()
         status = p.returncode
-        output = output.decode('utf8')
+        output = output.decode('utf8', errors='surrogatepass')
         # normalize newlines
         output = output.replace('\r\n', '\n')
     finally:
@@ -176,9 +179,11 @@ def external_diff_render(cmd, a, b):
     try:
         # TODO: Pass in language information so that an appropriate file
         # extension can be used. This should provide a hint to the differ.
-        with io.open(os.path.join(td, 'before'), 'w', encoding="utf8") as f:
+        with io.open(os.path.join(td, 'before'), 'w', encoding="utf8",
+                     errors="surrogatepass") as f:
             f.write(a)
-        with io.open(os.path.join(td, 'after'), 'w', encoding="utf8") as f:
+        with io.open(os.path.join(td, 'after'), 'w', encoding="utf8",
+                     errors="surrogatepass") as f:
             f.write(b)
         assert all(fn in cmd for fn in ['before', 'after']), (
             'invalid cmd argument for external diff renderer: %r' %
@@ -186,7 +191,7 @@ def external_diff_render(cmd, a, b):
         p = Popen(cmd, cwd=td, stdout=PIPE)
         output, errors = p.communicate()
         status = p.returncode
-        output = output.decode('utf8')
+        output = output.decode('utf8', errors='surrogatepass')
         r = re.compile(r"^\\ No newline at end of file\n?", flags=re.M)
         output, n = r.subn("", output)
         assert n <= 2, 'unexpected output from external diff renderer'
